@@ -15,7 +15,7 @@ TECHNIQUE = ('differential runtime monitor: real Enforcer with deprecated defaul
              'override table evaluated on generator ASTs; exhaustive row skeleton, random check strings')
 RULE = ('row skeleton (exhaustive): renamed / same-name deprecation x same / different default check strings x '
         'enforce_new_defaults on/off x new-name override absent/present x old-name override absent / arbitrary / alias '
-        'rule:<new> x each override in the main file or in a policy directory x 1-3 new policies sharing the predecessor; '
+        'rule:<new> x each override in the main file or in a policy directory x 1-3 new policies sharing the predecessor x the old name itself still registered or not (its override possibly repeating the default of that registration) x old-name override in one layer or in both with different values; '
         'per row several random (new default, old default, overrides) from the expression generator over 4 roles, '
         'decided under all 16 role subsets; deprecated reason/since texts and the two warning-suppression knobs of the enforcer varied (they must not matter); in half of the cases the operator files are then rewritten (overrides added / removed / moved, main file deleted) and the SAME enforcer is re-checked against the table for the new files. Rows whose old-name override is textually '
         'the deprecated default are skipped (unconstrained by the statement). Non-trivial = a deprecated predecessor '
@@ -27,7 +27,7 @@ LEVEL_TEXT = ('The table of the statement is finite in its skeleton and enumerat
 LEVEL_NOTE = 'trusted: the reference implementation of the override table (20 lines) and the AST evaluator'
 PLAN = {'quick': dict(shards=4, wall=60), 'thorough': dict(shards=16, wall=400)}
 MIN = {'evaluations': 500, 'decisions': 10000, 'rows_old_override_governs': 50, 'rows_or_merge': 50,
-       'rows_new_override_governs': 50, 'rows_alias': 50, 'phase2_cases': 100}
+       'rows_new_override_governs': 50, 'rows_alias': 50, 'phase2_cases': 100, 'rows_old_name_still_registered': 50, 'rows_old_override_in_both_layers': 20}
 ANCHORS = ['oslo_policy.policy:Enforcer._handle_deprecated_rule', 'oslo_policy.policy:Enforcer._record_file_rules',
            'oslo_policy.policy:Enforcer.load_rules', 'oslo_policy.policy:Enforcer.enforce']
 REQUIRED_ANCHORS = ['oslo_policy.policy:Enforcer.enforce', 'oslo_policy.policy:Enforcer.load_rules']
@@ -69,6 +69,15 @@ def fill(rnd, row):
     case['old_override'] = gen_expr(rnd) if row['old_ov'] == 'arbitrary' else None
     case['main_exists'] = rnd.random() < 0.7
     case['reason'] = rnd.randrange(len(REASONS))
+    # the deprecated old name may itself still be a registered policy with a default of its own; the operator's override
+    # under that name may even repeat that default (a "redundant" file entry is still an override of the old name)
+    if row['renamed'] and rnd.random() < 0.35:
+        case['old_registered_def'] = gen_expr(rnd)
+        if row['old_ov'] == 'arbitrary' and rnd.random() < 0.5:
+            case['old_override'] = case['old_registered_def']
+    # the old-name override may be present in BOTH layers with different values: the later layer (policy.d) is the override
+    if row['renamed'] and row['old_ov'] == 'arbitrary' and rnd.random() < 0.25:
+        case['old_override_main'] = gen_expr(rnd)
     # knobs that only silence warnings - they must not influence a decision
     case['suppress_default_change'] = rnd.random() < 0.3
     case['suppress_deprecation'] = rnd.random() < 0.3
@@ -114,6 +123,11 @@ def check_case(ctx, case):
         (main if case['loc_new'] == 'main' else dirf)[newnames[0]] = new_override[1]
     if renamed and case['old_ov'] == 'arbitrary':
         (main if case['loc_old'] == 'main' else dirf)[oldname] = old_override[1]
+        if case.get('old_override_main'):
+            # both layers define the old name: main says one thing, policy.d (applied later) says `old_override`
+            main[oldname] = untuple(case['old_override_main'])[1]
+            dirf[oldname] = old_override[1]
+            ctx.count('rows_old_override_in_both_layers')
     if renamed and case['old_ov'] == 'alias':
         (main if case['loc_old'] == 'main' else dirf)[oldname] = 'rule:' + newnames[0]
     tree = files.Tree(dirs=('pd',))
@@ -132,6 +146,9 @@ def check_case(ctx, case):
             dep = policy.DeprecatedRule(oldname if renamed else nm, olddef[1], deprecated_reason=reason or None,
                                         deprecated_since=since or None)
             enf.register_default(policy.RuleDefault(nm, newdefs[i][1], deprecated_rule=dep))
+        if renamed and case.get('old_registered_def'):
+            enf.register_default(policy.RuleDefault(oldname, untuple(case['old_registered_def'])[1]))
+            ctx.count('rows_old_name_still_registered')
 
         # ---- reference: the statement's table -------------------------------
         def effective(i, truth):
